@@ -5,7 +5,9 @@
 // in-memory storage client). The starred rotation runs against thin wrappers around those
 // components that number every call and can make call i return an error (before or after its
 // effect) or kill the process right after it. Whatever survives (key material, bucket objects,
-// memca content) is handed to freshly built components and judged there.
+// memca content) is handed to freshly built components and judged there. When the faulted rotation
+// returned (no crash), the rest of the history is also made a second time by the SAME process, on the
+// component and wrapper objects the failed attempt was given (leftovers/retry-in-same-process).
 package c10
 
 import (
@@ -422,6 +424,10 @@ type scenario struct {
 	// BlockKeyFile (localkm): the file of the key version about to be created cannot be written
 	// (a directory sits at its path), i.e. key creation fails half-way inside the key manager.
 	BlockKeyFile bool `json:"block_key_file,omitempty"`
+	// noSameProc (not part of the replay format): the same-process line is left out for this case
+	// (quick tier: cases of faults/single with r > 0, whose line differs from r = 0 only in the
+	// length of the history before the failed attempt)
+	noSameProc bool
 }
 
 func (sc *scenario) flagString() string {
@@ -548,16 +554,54 @@ func withComponents(f runFlags, ca styp.CertificateAuthority, m keys.ManagerInte
 	return keys.NewContext(ctx, &keys.Context{CA: ca, Manager: m, Signer: s, Random: rnd})
 }
 
-// runRotation builds fresh components over d (one process), runs one rotation the way the rotate
-// command does against the wrappers, and extracts what survives.
-func runRotation(sc *scenario, d *rotsim.Durable, in *injector, f runFlags) *runResult {
-	o := sc.opts()
-	o.Gate = in
-	w, err := rotsim.Build(d, o)
+// proc is one process: components built over a durable state, plus the wrapper objects through which
+// EVERY rotation attempt of this process reaches them (a process that retries keeps its authority,
+// key manager and signer objects, and whatever the code under test remembers about them).
+type proc struct {
+	sc       *scenario
+	w        *rotsim.World
+	ca       *faultCA
+	km       *faultKM
+	signer   *faultSigner
+	attempts int
+	// noInproc: the next attempt's result is judged by the caller through judgeLive instead of the
+	// in-process clause on the unwrapped objects
+	noInproc bool
+}
+
+func startProc(sc *scenario, d *rotsim.Durable) *proc {
+	w, err := rotsim.Build(d, sc.opts())
 	if err != nil {
 		panic("harness: " + err.Error())
 	}
-	defer w.Close()
+	return &proc{sc: sc, w: w, ca: &faultCA{base: w.CA}, km: &faultKM{base: w.Manager}, signer: &faultSigner{base: w.Signer}}
+}
+
+func (p *proc) close() { p.w.Close() }
+
+// gate points the process's wrappers (and its storage client) at in.
+func (p *proc) gate(in *injector) {
+	p.ca.in, p.km.in, p.signer.in = in, in, in
+	if p.w.Store != nil {
+		p.w.Store.Gate = in
+	}
+}
+
+func (p *proc) liveKeys() []string {
+	var n []string
+	for k := range p.w.Signer.Keys {
+		n = append(n, k)
+	}
+	sort.Strings(n)
+	return n
+}
+
+// attempt runs one rotation the way the rotate command does against the process's wrappers, and
+// extracts what would survive if the process ended now.
+func (p *proc) attempt(in *injector, f runFlags) *runResult {
+	w := p.w
+	p.attempts++
+	p.gate(in)
 	if f.blockKey != "" && w.KeyDir != "" {
 		if err := os.Mkdir(filepath.Join(w.KeyDir, f.blockKey+".pem"), 0o755); err != nil {
 			panic("harness: " + err.Error())
@@ -577,18 +621,19 @@ func runRotation(sc *scenario, d *rotsim.Durable, in *injector, f runFlags) *run
 				res.pan = r
 			}
 		}()
-		ctx := withComponents(f, &faultCA{base: w.CA, in: in}, &faultKM{base: w.Manager, in: in}, &faultSigner{base: w.Signer, in: in}, w.Rand)
+		ctx := withComponents(f, p.ca, p.km, p.signer, w.Rand)
 		res.kver, res.prep, res.err = rotsim.Rotate(ctx, rotsim.RotateParams{Serial: f.serial})
 	}()
-	in.crashed = true // nothing may reach the components through the wrappers any more
+	in.crashed = true // nothing may reach the components through this attempt's gate any more
 	if w.Store != nil {
 		w.Store.Gate = nil
 		closedAfterFailedWrite += w.Store.ClosedAfterFailedWrite
+		w.Store.ClosedAfterFailedWrite = 0
 	}
 	if f.blockKey != "" && w.KeyDir != "" {
 		os.Remove(filepath.Join(w.KeyDir, f.blockKey+".pem")) // the obstacle is transient
 	}
-	if !res.interrupted() {
+	if !res.interrupted() && !p.noInproc {
 		// the process is still alive: its own authority / key manager / signer objects must still
 		// name a usable primary (reads only; nothing durable changes)
 		func() {
@@ -598,22 +643,39 @@ func runRotation(sc *scenario, d *rotsim.Durable, in *injector, f runFlags) *run
 				}
 			}()
 			var info stateInfo
-			res.inproc, info = judgeComponents(withComponents(runFlags{}, w.CA, w.Manager, w.Signer, w.Rand), func() []string {
-				var n []string
-				for k := range w.Signer.Keys {
-					n = append(n, k)
-				}
-				sort.Strings(n)
-				return n
-			})
+			res.inproc, info = judgeComponents(withComponents(runFlags{}, w.CA, w.Manager, w.Signer, w.Rand), p.liveKeys)
 			res.inprocPrimary = info.primary
 		}()
 		res.inprocJudged = true
 	}
+	var err error
 	if res.after, err = w.Durable(); err != nil {
 		panic("harness: " + err.Error())
 	}
 	return res
+}
+
+// judgeLive asks the objects the rotation attempts of this process were GIVEN (the wrappers, behind
+// a gate that injects nothing) to endorse with the recorded primary.
+func (p *proc) judgeLive() (symptom string, info stateInfo) {
+	p.gate(newInjector(nil))
+	defer func() {
+		if p.w.Store != nil {
+			p.w.Store.Gate = nil
+		}
+		if r := recover(); r != nil {
+			symptom = fmt.Sprintf("the components panic when asked to endorse: %v", r)
+		}
+	}()
+	return judgeComponents(withComponents(runFlags{}, p.ca, p.km, p.signer, p.w.Rand), p.liveKeys)
+}
+
+// runRotation builds fresh components over d (one process), runs one rotation attempt in it and
+// ends the process.
+func runRotation(sc *scenario, d *rotsim.Durable, in *injector, f runFlags) *runResult {
+	p := startProc(sc, d)
+	defer p.close()
+	return p.attempt(in, f)
 }
 
 // ---------------------------------------------------------------------------------------------
@@ -714,6 +776,14 @@ const (
 	keyRetry    = "C10/refused-retry-damages-primary"
 	keyInProc   = "C10/live-authority-names-uncertified-primary-after-failed-finalize"
 	keyInProcX  = "C10/live-components-unusable-after-failed-rotation"
+	// the retry in the process of the failed attempt (same component objects) reports success, yet
+	// the state it records is broken although the same retry from a new process is sound: something
+	// the process kept from the failed attempt went into it
+	keySameProcState = "C10/retry-in-same-process-records-unusable-primary"
+	keySameProcFail  = "C10/retry-in-same-process-fails"
+	// a later attempt of a process re-created the key version that storage records as primary (the
+	// process's authority lagged behind storage) and was interrupted before recording anything
+	keySecondReplaces = "C10/second-attempt-by-same-process-replaces-durable-primary-key"
 )
 
 // rootCause names why the surviving state is broken, from what the faulted run was seen doing.
@@ -810,6 +880,8 @@ type caseInfo struct {
 	primaryAfter string
 	firedNames   []string
 	allFired     bool
+	// sameProc: class of the same-process line of this case ("" = the line was not run)
+	sameProc string
 }
 
 // starredFlags derives the flags of the starred rotation from the scenario.
@@ -898,7 +970,9 @@ func evaluate(sc *scenario) (*verdict, caseInfo) {
 	if oldPrimary == "" {
 		panic("harness: no primary in the pre-state")
 	}
-	run := runRotation(sc, pre, newInjector(sc.Faults), starredFlags(sc, pre, oldPrimary))
+	p := startProc(sc, pre)
+	defer p.close()
+	run := p.attempt(newInjector(sc.Faults), starredFlags(sc, pre, oldPrimary))
 	ci.nontrivial = run.in.newKeyAtFault
 	ci.before, ci.after = pre, run.after
 	ci.firedNames = firedNames(run.in)
@@ -969,6 +1043,15 @@ func evaluate(sc *scenario) (*verdict, caseInfo) {
 	if v := followUp(sc, state, info.primary, bad); v != nil {
 		return v, ci
 	}
+	// the same history once more from the point where the starred rotation returned, this time
+	// WITHOUT leaving its process (line A above has not touched p: it went on from snapshots)
+	if !run.interrupted() && !sc.noSameProc {
+		v, class := sameProcessLine(sc, p, run, oldPrimary, ci.primaryAfter, bad)
+		if v != nil {
+			return v, ci
+		}
+		ci.sameProc = class
+	}
 	ci.sample = func() any {
 		return map[string]any{"scenario": sc.String(), "starred": describe(run), "primary_before": oldPrimary, "primary_after_fault": ci.primaryAfter}
 	}
@@ -998,6 +1081,116 @@ func followUp(sc *scenario, state *rotsim.Durable, primaryBefore string, bad fun
 	}
 	if fol.inprocJudged && fol.inproc != "" {
 		v, _ := bad(keyInProcX, "after the successful follow-up rotation, in the same process: %s | follow-up %s", fol.inproc, describe(fol))
+		return v
+	}
+	return nil
+}
+
+// splitViewNote describes a defect this line found on /repo 9f94f3a, repaired by /repo commit 7a31983
+// ("fix: gcsca drops its manifest cache when the manifest write reports an error") and guarded since
+// by the generated class split-view/* and by TestRegressionSecondAttemptBySameProcessAfterLostManifestReply.
+const splitViewNote = "C10 leftovers/retry-in-same-process: the process's authority names another primary than storage does after a failed attempt (split view). Defect found with this class on /repo 9f94f3a and repaired by /repo commit 7a31983 (gcsca.Finalize flushes its manifest cache when the manifest write reports an error): the starred rotation fails with a LOST REPLY of the manifest write (errafter on storage.Close(keyManifest.textproto): the object was written, an error is reported). Storage then records the new key version N as primary (certified, usable), while gcsca kept the cached manifest it had before Finalize, so the process's own authority still named the old primary P. A second rotation attempt by the SAME process derived the new key version name from P, which is N again (memkm.BumpName), and CreateNewSigningKeyVersion replaced the key material of N, the durable primary, as its first step; interrupted anywhere before its own manifest write (e.g. crash right after manager.CreateNewSigningKeyVersion, or an error reading root.crt), it left the durable primary N with a certificate for a key that no longer exists: endorse.SignDoc output does not verify (key C10/second-attempt-by-same-process-replaces-durable-primary-key)."
+
+// sameProcessLine: the attempts after the starred one (the optional second faulted attempt, then the
+// fault-free rotation with --overwrite) made by the process of the starred rotation itself, on the
+// authority, key manager and signer objects (and wrappers) that attempt was given. A crash ends the
+// process: what follows a crash runs in a new one over the surviving state.
+func sameProcessLine(sc *scenario, p *proc, run *runResult, oldPrimary, durablePrimary string, bad func(key, f string, a ...any) (*verdict, caseInfo)) (*verdict, string) {
+	class := "starred:" + run.outcome()
+	state, live := run.after, run.inprocPrimary
+	second := len(sc.Next) > 0
+	if !run.interrupted() && run.outcome() != "ok" && durablePrimary != oldPrimary {
+		// the precondition of a split view: the attempt reported a failure although the manifest (memca:
+		// the authority's fields) already records the new primary
+		pc := "split-view-precondition/failure-reported-but-new-primary-durably-recorded"
+		ev.Class(sameProcName, pc)
+		if second {
+			ev.Class(sameProcName, pc+"/then-second-faulted-attempt-by-the-same-process")
+		}
+		if live != "" && live != durablePrimary {
+			ev.Class(sameProcName, "split-view/live-authority-names-"+map[bool]string{true: "the-old", false: "another"}[live == oldPrimary]+"-primary-while-storage-names-the-new-one")
+			ev.Note("%s", splitViewNote)
+		}
+	}
+	if second {
+		nxt := p.attempt(newInjector(sc.Next), runFlags{overwrite: true})
+		sym, info := judgeDurable(sc, nxt.after)
+		if sym != "" {
+			key := sameProcRootCause(nxt, state, durablePrimary)
+			v, _ := bad(key, "after the second faulted rotation, made in the process of the first one (same component objects): %s | second %s", sym, describe(nxt))
+			return v, class
+		}
+		if len(nxt.in.fired) < len(sc.Next) {
+			class += "/next:fault-unreached"
+		} else {
+			class += "/next:" + nxt.outcome()
+		}
+		state, live = nxt.after, nxt.inprocPrimary
+		if nxt.interrupted() {
+			// the process is gone: the fault-free rotation runs in a new one
+			if v := followUp(sc, state, info.primary, bad); v != nil {
+				v.Msg = "(history: starred rotation and second faulted rotation in ONE process, which the second fault killed) " + v.Msg + " | second " + describe(nxt)
+				return v, class
+			}
+			return nil, class + "/retry-in-new-process:ok"
+		}
+	}
+	if v := followUpInProcess(sc, p, state, live, bad); v != nil {
+		return v, class
+	}
+	return nil, class + "/retry:ok"
+}
+
+// sameProcRootCause names why the state a later attempt of a process left is broken. durableBefore
+// is the primary storage recorded when that attempt started.
+func sameProcRootCause(r *runResult, state *rotsim.Durable, durableBefore string) string {
+	key := rootCause(r, state)
+	if key != keyUnusable {
+		return key
+	}
+	if r.in.newKey != "" && r.in.newKey == durableBefore {
+		// the attempt created its "new" key version under the name of the key storage records as
+		// primary: the process derived the name from a primary that was no longer the recorded one
+		return keySecondReplaces
+	}
+	return keySameProcState
+}
+
+// followUpInProcess: the fault-free rotation with --overwrite, run by the process p that made the
+// failed attempt(s). It must succeed, make the key it returns the durable primary, and leave both
+// the durable state (fresh components) and the process's own objects able to endorse. state is the
+// durable state before it; liveBefore the primary the process's own authority named before it.
+func followUpInProcess(sc *scenario, p *proc, state *rotsim.Durable, liveBefore string, bad func(key, f string, a ...any) (*verdict, caseInfo)) *verdict {
+	const where = "the fault-free rotation with --overwrite retried in the process of the failed attempt (same authority, key manager and signer objects)"
+	p.noInproc = true
+	fol := p.attempt(newInjector(nil), runFlags{overwrite: true})
+	p.noInproc = false
+	if fol.pan != nil {
+		v, _ := bad(keySameProcFail, "%s panics: %v | retry %s", where, fol.pan, describe(fol))
+		return v
+	}
+	if fol.prep != nil || fol.err != nil {
+		v, _ := bad(keySameProcFail, "%s fails: prep %v, err %v | retry %s", where, fol.prep, fol.err, describe(fol))
+		return v
+	}
+	sym, finfo := judgeDurable(sc, fol.after)
+	if sym != "" {
+		key := rootCause(fol, state)
+		if key == keyUnusable {
+			key = keySameProcState
+		}
+		v, _ := bad(key, "%s reported success (returned %q), yet a new process over the state it left: %s | retry %s", where, fol.kver, sym, describe(fol))
+		return v
+	}
+	if finfo.primary != fol.kver || (liveBefore != "" && fol.kver == liveBefore) {
+		v, _ := bad(keySameProcFail, "%s returned %q but the durable primary is %q (the process's authority named %q before it)", where, fol.kver, finfo.primary, liveBefore)
+		return v
+	}
+	if sym, linfo := p.judgeLive(); sym != "" || linfo.primary != fol.kver {
+		if sym == "" {
+			sym = fmt.Sprintf("the process's authority names %q as primary, the rotation returned %q", linfo.primary, fol.kver)
+		}
+		v, _ := bad(keySameProcState, "%s reported success (returned %q), yet the process's own objects afterwards: %s | retry %s", where, fol.kver, sym, describe(fol))
 		return v
 	}
 	return nil
@@ -1103,6 +1296,23 @@ func (tl *tally) finish(t *testing.T, testName string) bool {
 	return false
 }
 
+const sameProcName = "leftovers/retry-in-same-process"
+
+const sameProcRule = "every case of faults/single, faults/flags, faults/inside-key-manager and faults/pairs whose starred rotation RETURNED (error or refusal; a crash or panic ends the process) (quick tier: of faults/single only the cases with r = 0; thorough: all) is continued a second time without leaving the process: the remaining attempts of the history (faults/pairs: the second faulted attempt with --overwrite; always: the fault-free rotation with --overwrite) are made on the very authority, key manager and signer objects, and through the very wrapper objects, that the failed attempt was given in keys.Context, so that anything the code under test remembers per object or per process (cached manifests, memoized keys or certificates, package-level state) from the failed attempt is in play; the key managers re-use the key version name of the abandoned key. Only a crash in the second attempt moves the rest of the history to a new process. Likewise the --overwrite rotation after every REFUSED retry of leftovers/retry-without-overwrite is also made in the refusing process (class after-refused-retry/*). Oracle: the in-process retry succeeds, the key it returns differs from the primary the process's authority named before and is the durable primary; FRESH components over the durable state satisfy the clauses of faults/single (certificate of the primary verifies under the stored root, endorse.SignDoc + reference verification, i.e. the certificate is for the key the key manager holds); the process's own objects (through the wrappers) satisfy them too. (the retry from a new process over the same leftovers has been judged sound just before). Classes split-view-precondition/* count the cases whose failed attempt had already recorded the new primary durably (lost reply of the manifest write; memca: lost reply of Finalize), with and without a second FAULTED attempt by the same process; split-view/* counts those in which the process's authority then names another primary than storage (none since /repo 7a31983; on 9f94f3a that second attempt re-created the durable primary's key version, key C10/second-attempt-by-same-process-replaces-durable-primary-key, replayed deterministically by TestRegressionSecondAttemptBySameProcessAfterLostManifestReply, class regression/*). Other keys: C10/retry-in-same-process-fails, C10/retry-in-same-process-records-unusable-primary. Classes <components>/starred:<outcome>[/next:<outcome>]/retry:ok, not-run/process-died-in-starred-rotation, not-run/quick-tier-*. non-trivial = the new key version existed when a fault fired (its name, and whatever was derived from it, is met again by the retry); distinct = the scenario"
+
+// countSameProc records the same-process line of an evaluated case.
+func countSameProc(sc *scenario, ci caseInfo) {
+	if ci.sameProc == "" {
+		if sc.noSameProc {
+			ev.Class(sameProcName, "not-run/quick-tier-leaves-out-faults/single-with-r>0")
+		} else {
+			ev.Class(sameProcName, "not-run/process-died-in-starred-rotation")
+		}
+		return
+	}
+	ev.Case(sameProcName, ci.nontrivial, sc.String(), fmt.Sprintf("%s+%s/%s", sc.KM, sc.CA, ci.sameProc), ci.sample)
+}
+
 // runCase evaluates one scenario of an enumeration. expect, if given, names the calls the faults
 // are meant for (from the dry pass); when the faulted run met other calls at those indices the case
 // is counted as inconclusive for the "every call" claim (it is still judged).
@@ -1129,6 +1339,7 @@ func runCase(t *testing.T, name string, sc *scenario, expect []string, tl *tally
 	}
 	ev.Case(name, ci.nontrivial, sc.String(), ci.class, ci.sample)
 	ev.Class(name, "left-behind/"+ci.shape)
+	countSameProc(sc, ci)
 	return ci, true
 }
 
@@ -1179,7 +1390,9 @@ func stateKey(sc *scenario, d *rotsim.Durable, primary string) string {
 // That attempt may be refused; if it is, it is a failed rotation like any other: the recorded
 // primary must still be usable afterwards and the --overwrite rotation must still succeed.
 func retryCase(t *testing.T, sc *scenario, before *rotsim.Durable, state *rotsim.Durable, primary, leftShape string, tl *tally) {
-	r := runRotation(sc, state, newInjector(nil), runFlags{})
+	p := startProc(sc, state)
+	defer p.close()
+	r := p.attempt(newInjector(nil), runFlags{})
 	canon := "retry without --overwrite after: " + sc.String()
 	bad := func(key, f string, a ...any) (*verdict, caseInfo) {
 		return &verdict{Key: key, Msg: fmt.Sprintf(f, a...) + " | leftovers of: " + sc.String() + " (" + leftShape + ") | primary before the retry: " + primary + " | retry " + describe(r)}, caseInfo{}
@@ -1207,6 +1420,14 @@ func retryCase(t *testing.T, sc *scenario, before *rotsim.Durable, state *rotsim
 		tl.record(t, retryName, sc, v)
 		return
 	}
+	if !r.interrupted() {
+		// the refusing process itself goes on to rotate with --overwrite
+		if v := followUpInProcess(sc, p, r.after, r.inprocPrimary, bad); v != nil {
+			tl.record(t, retryName, sc, v)
+			return
+		}
+		ev.Case(sameProcName, true, canon, fmt.Sprintf("%s+%s/after-refused-retry/over:%s/retry:ok", sc.KM, sc.CA, leftShape), nil)
+	}
 	ev.Case(retryName, shape(state, r.after, primary, info.primary) != "nothing-left-behind" || leftShape != "nothing-left-behind", canon, class, func() any {
 		return map[string]any{"leftovers_of": sc.String(), "left_behind": leftShape, "retry": describe(r)}
 	})
@@ -1216,6 +1437,7 @@ func TestSingleFaults(t *testing.T) {
 	const name = "faults/single"
 	ev.Rule(name, "histories bootstrap; rotate^r; rotate* with r in {0,1} (thorough {0,1,2}); the starred rotation (no flags) has its calls numbered in a dry pass, then EVERY call index x EVERY applicable fault mode is injected in turn (the sub-check is marked exhaustive only if every faulted run met the dry pass's call at the faulted index). "+ruleCommon+". non-trivial = the new key version existed when the fault fired; classes left-behind/* say what the faulted run left (new key, new certificate, primary moved, old key gone); distinct = (components, r, call index, mode)")
 	ev.Rule(retryName, "for every DISTINCT durable state (key names and moduli, objects, memca content) that a case of faults/single left behind: a fault-free rotation WITHOUT --overwrite in a new process (the operator re-runs the command as is). If it succeeds the case is trivial (not this property's subject). If it is refused it is a failed rotation: the oracle of faults/single applies to the state it leaves, and the --overwrite rotation after it must succeed. "+ruleCommon+". non-trivial = the retry was refused over a state in which the failed attempt had left something; distinct = the leftover state")
+	ev.Rule(sameProcName, sameProcRule+". "+ruleCommon)
 	var replay scenario
 	if ev.ReplayCase("TestSingleFaults", &replay) {
 		replayOne(t, &replay)
@@ -1245,6 +1467,7 @@ func TestSingleFaults(t *testing.T) {
 						continue
 					}
 					sc := &scenario{KM: c.KM, CA: c.CA, R: r, Faults: []faultSpec{{Index: i, Mode: mode}}}
+					sc.noSameProc = r > 0 && ev.Tier() != "thorough"
 					ci, ok := runCase(t, name, sc, []string{callName}, tl)
 					if !ok {
 						continue
@@ -1388,6 +1611,7 @@ func TestInsideKeyManager(t *testing.T) {
 				continue
 			}
 			ev.Case(name, !strings.Contains(ci.class, "/none/ok/"), sc.String(), ci.class, ci.sample)
+			countSameProc(sc, ci)
 		}
 	}
 	if tl.finish(t, "TestInsideKeyManager") {
@@ -1501,6 +1725,7 @@ func TestFaultPairs(t *testing.T) {
 		}
 		ev.Case(name, ci.nontrivial && ci.allFired, sc.String(), ci.class, ci.sample)
 		ev.Class(name, "left-behind/"+ci.shape)
+		countSameProc(sc, ci)
 	})
 }
 
@@ -1572,4 +1797,85 @@ func TestRegressionSerialOfPrimaryOverwritesItsCertificate(t *testing.T) {
 // uncertified key version as primary: the process's authority object is unusable for endorsing.
 func TestRegressionFailedFinalizeLeavesCachedPrimary(t *testing.T) {
 	regress(t, scenario{KM: "memkm", CA: "gcsca"}, "storage.Writer(certs/", mErr, keyInProc)
+}
+
+// regressSameProcess: ONE process makes a rotation attempt faulted at the first call named
+// firstCall, then a second attempt with --overwrite faulted at the first call named secondCall; the
+// durable state after each is judged by fresh components, then the fault-free rotation must succeed
+// (in that process if it is alive, else in a new one).
+func regressSameProcess(t *testing.T, base scenario, firstCall, firstMode, secondCall, secondMode string) {
+	sc := &base
+	canon := fmt.Sprintf("regression: %s+%s r=%d one process: rotate with %s on %s; rotate --overwrite with %s on %s; rotate --overwrite", sc.KM, sc.CA, sc.R, firstMode, firstCall, secondMode, secondCall)
+	pre := preState(sc)
+	_, before := judgeDurable(sc, pre)
+	p := startProc(sc, pre)
+	defer p.close()
+	in1 := newInjector(nil)
+	in1.byName = map[string]string{firstCall: firstMode}
+	run1 := p.attempt(in1, runFlags{})
+	bad := func(key, f string, a ...any) (*verdict, caseInfo) {
+		return &verdict{Key: key, Msg: fmt.Sprintf(f, a...) + " | " + canon + " | primary before: " + before.primary + " | first " + describe(run1)}, caseInfo{}
+	}
+	sym, after1 := judgeDurable(sc, run1.after)
+	if sym != "" {
+		ev.Violation(t, rootCause(run1, pre), "after the first faulted rotation: %s | %s | first %s", sym, canon, describe(run1))
+		return
+	}
+	if len(in1.fired) != 1 || run1.interrupted() || run1.outcome() == "ok" {
+		// precondition unmet (the rotation no longer makes this call, or tolerates the fault): nothing
+		// to replay, the enumerations judge whatever the rotation does instead
+		ev.Class(sameProcName, "regression/inconclusive:first-fault-did-not-fail-the-attempt")
+		t.Logf("inconclusive: the fault on %q did not fail the first attempt: %s", firstCall, describe(run1))
+		return
+	}
+	class := fmt.Sprintf("regression/%s+%s/primary-after-failed-attempt:durable=%s,live=%s", sc.KM, sc.CA, map[bool]string{true: "old", false: "new"}[after1.primary == before.primary], map[bool]string{true: "same-as-durable", false: "other"}[run1.inprocPrimary == after1.primary])
+	in2 := newInjector(nil)
+	in2.byName = map[string]string{secondCall: secondMode}
+	run2 := p.attempt(in2, runFlags{overwrite: true})
+	sym, after2 := judgeDurable(sc, run2.after)
+	if sym != "" {
+		v, _ := bad(sameProcRootCause(run2, run1.after, after1.primary), "after the second faulted rotation, made in the process of the first one (same component objects): %s (the process's authority named %q, storage %q when it started) | second %s", sym, run1.inprocPrimary, after1.primary, describe(run2))
+		ev.Violation(t, v.Key, "%s", v.Msg)
+		return
+	}
+	if len(in2.fired) != 1 {
+		class += "/second-fault-unreached"
+	} else {
+		class += "/second:" + run2.outcome()
+	}
+	var v *verdict
+	if run2.interrupted() {
+		v = followUp(sc, run2.after, after2.primary, bad)
+	} else {
+		v = followUpInProcess(sc, p, run2.after, run2.inprocPrimary, bad)
+	}
+	if v != nil {
+		ev.Violation(t, v.Key, "%s | second %s", v.Msg, describe(run2))
+		return
+	}
+	ev.Case(sameProcName, len(in2.fired) == 1 && after1.primary != before.primary, canon, class, func() any {
+		return map[string]any{"history": canon, "first": describe(run1), "second": describe(run2)}
+	})
+}
+
+// The reply of the completed manifest write is lost: storage records the new primary, the attempt
+// reports an error. A second attempt by the same process must start from what storage records. On
+// /repo 9f94f3a gcsca kept its stale cached manifest, the second attempt re-created the key version
+// storage names as primary, and an interruption before its own manifest write left that primary with
+// a certificate for replaced key material (repaired by /repo 7a31983). Minimal generated form:
+// memkm+gcsca r=0 faults=[errafter@34] next-rotation-faults=[crash@4] in one process.
+func TestRegressionSecondAttemptBySameProcessAfterLostManifestReply(t *testing.T) {
+	const lost = "storage.Close(" + gcsca.ManifestObjectName
+	for _, km := range []string{"memkm", "localkm"} {
+		t.Run(km+"/crash-after-key-creation", func(t *testing.T) {
+			regressSameProcess(t, scenario{KM: km, CA: "gcsca"}, lost, mErrAfter, "manager.CreateNewSigningKeyVersion", mCrash)
+		})
+		t.Run(km+"/error-reading-root-certificate", func(t *testing.T) {
+			regressSameProcess(t, scenario{KM: km, CA: "gcsca"}, lost, mErrAfter, "storage.Read(root.crt)", mErr)
+		})
+	}
+	// memca applies a mutation inside Finalize: the lost reply of Finalize is its counterpart
+	t.Run("memca/crash-after-key-creation", func(t *testing.T) {
+		regressSameProcess(t, scenario{KM: "memkm", CA: "memca"}, "ca.Finalize", mErrAfter, "manager.CreateNewSigningKeyVersion", mCrash)
+	})
 }
